@@ -1,5 +1,5 @@
 """Source of truth for MANIFEST.json (bin/mkmanifest)."""
-HOOK_COMMITS = []
+HOOK_COMMITS = ["960f1cc"]
 _TB = ("Trusted base: TLC 1.8 and the TLA+ module Wide (exact integers, model-checked against native ints in MCWide); "
        "the harness encoders (JSON/limb writer); clang UBSan in trap mode as the observer of undefined arithmetic; ")
 CHECKS = {
@@ -49,4 +49,16 @@ CHECKS["C15"] = dict(level="model_checking",
    technique="TLA+ spec Fixed (OffsetToName/NameToOffset/OffsetToAbbr) model-checked exhaustively on all 180001 offsets + TLC trace validation of fixed_time_zone/load-by-name/lookup/factory-count events for every offset and of mutated name strings",
    text="Exhaustive on both sides: TLC checks round trip and abbreviation shape for every offset in [-90000, 90000]; the real library is driven for every one of those offsets (name, equality with load-by-name, 7 lookups across int64, zero data-source calls) and for thousands of single-edit name mutations (incl. NUL bytes, digits > 59, 24:00:01), each event decided by TLC against the spec.",
    note=_TB + "exhaustive for offsets; names are sampled mutations.")
+_LT = ("TLA+ spec Loader (LoadTimeZone at critical-section granularity: name cache, load mutex, factory, returned values) model-checked by TLC "
+       "(k<=3 threads quick, 4 thorough; invariants + Sticky + termination under weak fairness); behaviours of TLC's state graph replayed "
+       "step by step into the real code through yield hooks and a blocking recording factory under ThreadSanitizer, observed abstract state "
+       "compared with the model by TLC (LoaderTrace); attack schedules of the unserialised protocol; free-running stress histories")
+_LB = ("Trusted base: TLC; spec/Loader.tla; ThreadSanitizer (races only on executed schedules); the harness scheduler. "
+       "Verdicts rest on factory observations and returned values, not on the hooks. k > 4 threads only sampled (stress, 16/64 threads).")
+CHECKS["C13"] = dict(level="model_checking", engine="tlc-gen-replay", technique=_LT + " [Agree/SeqEquiv, TSan reports, answers on shared zone values vs single-threaded reference]",
+   text="Agree (equal names => identical value) and SeqEquiv (value = function of the name) are TLC invariants of the loader protocol for every interleaving of 2-3 (4) threads; the same interleavings are forced in the real code (edge cover + random walks of the state graph) and the returned values/identities compared; 16-64 free threads load and use shared zones under TSan with answers compared to single-threaded ones.",
+   note=_LB)
+CHECKS["C20"] = dict(level="model_checking", engine="tlc-gen-replay", technique=_LT + " [FactoryOnce/FactorySerial/NoFactoryForFixed on the model state reached with the real code; caller-thread check in the recording factory]",
+   text="FactoryOnce, FactorySerial, NoFactoryForFixed are TLC invariants of the repaired protocol (and TLC finds them violated on the unserialised one - negative control). Every replayed behaviour re-checks them on observations (who is inside the factory after each step, calls per name, calling thread); schedules that violate them in the unserialised model are attempted against the code and must be unrealisable.",
+   note=_LB)
 NOT_APPLICABLE = {}
